@@ -1,48 +1,298 @@
+// C09 — root trust anchors change only as RFC 5011 permits, across crashes and
+// faults. Level: fault_enumeration.
+//
+// A scripted loopback root (UDP+TCP) publishes, step by step, the DNSKEY RRsets
+// of a history (add, co-sign, remove, re-add, revoke, colliding key tags, forged
+// and partially signed sets). Every refresh is run by a FRESH resolver object on
+// the same state directory (= a restart: all trust state is per object and
+// re-read from disk). Virtual time passes by moving the timestamps stored in the
+// two state files back. Faulted refreshes run alone in a child process under
+// strace (EIO on either/both file replacements, EIO on opening the tombstone
+// store, SIGKILL on entry to either rename or any of the four fsyncs) or on a
+// directory whose tombstone store was made unreadable; the next refresh starts
+// from whatever is on disk.
+//
+// Oracle: model.go (reference model M + literal ledger L), run.go (judge).
 package main
 
 import (
 	"encoding/json"
 	"fmt"
-	"math/rand/v2"
 	"os"
+	"os/exec"
+	"os/signal"
+	"runtime"
+	"sort"
+	"sync"
+	"syscall"
+
+	"github.com/semihalev/sdns/zzverif/vlib"
 )
 
 func main() {
 	if len(os.Args) >= 3 && os.Args[1] == "--child" {
 		os.Exit(childMain(os.Args[2]))
 	}
-	if len(os.Args) >= 2 && os.Args[1] == "--probe" {
-		probe()
-		return
+	r := vlib.Start("C09", "fault_enumeration")
+
+	root, err := os.MkdirTemp("", "verif-c09-")
+	if err != nil {
+		r.Fatalf("mkdtemp: %v", err)
 	}
+	cleanup := func() { _ = os.RemoveAll(root) }
+	sigc := make(chan os.Signal, 1)
+	signal.Notify(sigc, syscall.SIGINT, syscall.SIGTERM)
+	go func() {
+		<-sigc
+		cleanup()
+		os.Exit(2)
+	}()
+	self, err := os.Executable()
+	if err != nil {
+		cleanup()
+		r.Fatalf("executable: %v", err)
+	}
+	if _, err := exec.LookPath("strace"); err != nil {
+		cleanup()
+		r.Fatalf("strace not found: %v", err)
+	}
+	rn := &runner{r: r, root: root, bin: self}
+
+	r.Assume("a refresh killed before it returned is not an accepted refresh; a refresh whose two file replacements both failed adopted nothing and is not an accepted refresh either")
+	r.Assume("a revocation counts as accepted-and-recorded once one of the two records is on disk; if neither could be written the only demand is the fail-closed clear in that process")
+	r.Assume("kernel-level torn writes are not simulated: the unit of atomicity is rename(2); crash points are the entries of the two renames and of the four fsyncs")
+	r.Assume("virtual time = shifting the stored instants; RRSIG validity is judged by the resolver in real time (signatures are made fresh for every refresh)")
+
+	var specs []*RunSpec
+	if rc := r.ReplayCase(); rc != nil {
+		var c struct {
+			Run *RunSpec `json:"run"`
+		}
+		if err := json.Unmarshal(rc, &c); err != nil || c.Run == nil {
+			var rs RunSpec
+			if err2 := json.Unmarshal(rc, &rs); err2 != nil || len(rs.H.Steps) == 0 {
+				cleanup()
+				r.Fatalf("replay: cannot parse case: %v", err)
+			}
+			c.Run = &rs
+		}
+		specs = []*RunSpec{c.Run}
+	} else {
+		specs = buildSpecs(r)
+	}
+
+	workers := runtime.NumCPU() - 2
+	if workers > 14 {
+		workers = 14
+	}
+	if workers < 2 {
+		workers = 2
+	}
+	results := make([]*runResult, len(specs))
+	var wg sync.WaitGroup
+	ch := make(chan int)
+	var doneMu sync.Mutex
+	done := 0
+	for w := 0; w < workers; w++ {
+		wg.Add(1)
+		go func() {
+			defer wg.Done()
+			for i := range ch {
+				results[i] = rn.execRun(specs[i])
+				doneMu.Lock()
+				done++
+				d := done
+				doneMu.Unlock()
+				r.Progress("runs %d/%d", d, len(specs))
+			}
+		}()
+	}
+	for i := range specs {
+		ch <- i
+	}
+	close(ch)
+	wg.Wait()
+
+	// merge in index order (deterministic evidence)
+	histories := map[string]bool{}
+	for _, res := range results {
+		if res == nil {
+			continue
+		}
+		histories[res.Spec.H.Name] = true
+		keys := make([]string, 0, len(res.Cnt))
+		for k := range res.Cnt {
+			keys = append(keys, k)
+		}
+		sort.Strings(keys)
+		for _, k := range keys {
+			r.Count(k, res.Cnt[k])
+		}
+		for _, d := range res.Dist {
+			r.Distinct(d)
+		}
+		for _, s := range res.MStates {
+			r.DistinctIn("model_states", s)
+		}
+		r.DistinctIn("fault_assignments", res.Spec.H.Name+fmt.Sprint(res.Spec.faults()))
+	}
+	r.Count("histories", len(histories))
+	for _, res := range results {
+		if res != nil && (res.Spec.Kind == "directed" || res.Spec.Kind == "sweep") && len(res.Logs) > 0 {
+			if res.Spec.H.Name == "rollover" {
+				r.Sample(map[string]any{"history": res.Spec.H.Name, "faults": res.Spec.faults(), "steps": res.Logs})
+			}
+		}
+	}
+	r.Count("model_states_visited", 0)
+
+	if r.ReplayCase() == nil {
+		for _, f := range allFaults {
+			r.Require("fault/"+f, int64(r.N(4, 40)))
+		}
+		for _, t := range []string{"Start->AddPend", "AddPend->Valid", "AddPend->Start", "Valid->Missing", "Missing->Valid", "Missing->Removed", "Valid->Revoked", "Missing->Revoked"} {
+			r.Require("transition/"+t, 3)
+		}
+		r.Require("revocations_accepted", 20)
+		r.Require("holddown_crossings/add-30d", 10)
+		r.Require("holddown_crossings/remove-90d", 3)
+		for _, n := range []string{"add-within-48h-before", "add-within-48h-after", "remove-within-48h-before", "remove-within-48h-after"} {
+			r.Require("holddown_near/"+n, 1)
+		}
+		for _, a := range []string{authFull, authRevOnly, authNone} {
+			r.Require("auth/"+a, 10)
+		}
+		for _, f := range []string{FTombCorrupt, FTombDir, FBothEIO} {
+			r.Require("fail_closed_observed/"+f, 2)
+		}
+		r.Require("s3_checks", 50)
+		r.Require("s1_s2_checks", 500)
+		r.Require("s4_checks", 300)
+		r.Require("set_compare_agree", 500)
+		r.Require("steps_crashed", 15)
+		r.Require("disk_checks", 1000)
+		r.Require("runs_completed", int64(len(specs)/2))
+	}
+
+	cleanup()
+	r.Finish("one evaluation = one observed trust set (the set a restart publishes, and the set after the refresh) judged by S1-S4, the fail-closed clauses and the reference model; distinct_nontrivial = distinct (model state vector before the refresh, authentication class, model transitions, fault kind and whether it was reached) tuples")
 }
 
-func probe() {
-	rng := rand.New(rand.NewPCG(1, 2))
-	p := newPool(rng, 3000)
-	fmt.Fprintf(os.Stderr, "pool plain=%d same=%d rev=%d carry=%d\n", len(p.plain), len(p.sameTag), len(p.revTag), len(p.carry))
-	h := History{Name: "probe", ZSK: p.plain[9].Mat}
-	for i := 0; i < 3; i++ {
-		h.Keys = append(h.Keys, p.plain[i].Mat)
+// buildSpecs lays out the fixed case list of a tier.
+func buildSpecs(r *vlib.Run) []*RunSpec {
+	pool := newPool(r.Rand("keys"), 3000)
+	t := &keyTaker{p: pool}
+	var specs []*RunSpec
+	add := func(rs RunSpec) {
+		c := rs
+		c.Index = len(specs)
+		specs = append(specs, &c)
 	}
-	h.Config = []Pub{{Key: 0}}
-	h.Steps = []Step{
-		{Keys: []Pub{{Key: 0}, {Key: 1}}, Sigs: []SigSpec{{Key: 0}}},
-		{DtHours: 29 * 24, Keys: []Pub{{Key: 0}, {Key: 1}}, Sigs: []SigSpec{{Key: 0}}},
-		{DtHours: 2 * 24, Keys: []Pub{{Key: 0}, {Key: 1}}, Sigs: []SigSpec{{Key: 0}}},
-		{DtHours: 24, Keys: []Pub{{Key: 0}, {Key: 1}}, Sigs: []SigSpec{{Key: 0, Mode: "bad"}}},
-		{DtHours: 24, Answer: "servfail"},
-		{DtHours: 24, Keys: []Pub{{Key: 0, Revoked: true}, {Key: 1}}, Sigs: []SigSpec{{Key: 0, Revoked: true}, {Key: 1}}},
-		{DtHours: 24, Keys: []Pub{{Key: 1}}, Sigs: []SigSpec{{Key: 1}}},
+
+	dir := directed(t)
+	for _, d := range dir {
+		add(d)
 	}
-	dir := os.Args[2]
-	job := Job{Dir: dir + "/state", Out: dir + "/out.jsonl", History: h, From: 0, To: len(h.Steps)}
-	if len(os.Args) > 3 {
-		fmt.Sscan(os.Args[3], &job.From)
-		fmt.Sscan(os.Args[4], &job.To)
-		job.LockOS = true
+	// fault sweep over the directed histories
+	for di, d := range dir {
+		pos := interesting(&d)
+		for fi, f := range allFaults {
+			var at []int
+			if r.Quick() {
+				// the first revocation step (if any) and one rotating other step
+				if p := firstRevocation(&d); p >= 0 {
+					at = append(at, p)
+				}
+				if len(pos) > 0 {
+					at = append(at, pos[(di+fi)%len(pos)])
+				}
+				if len(at) == 2 && at[0] == at[1] {
+					at = at[:1]
+				}
+			} else {
+				for p := range d.H.Steps {
+					at = append(at, p)
+				}
+			}
+			for _, p := range at {
+				add(RunSpec{Kind: "sweep", Collision: d.Collision, H: withFaults(d.H, map[int]string{p: f})})
+			}
+		}
 	}
-	_ = os.MkdirAll(job.Dir, 0o750)
-	b, _ := json.Marshal(job)
-	_ = os.WriteFile(dir+"/job.json", b, 0o600)
+	// random histories
+	nRandom := r.N(140, 110)
+	var random []RunSpec
+	for i := 0; i < nRandom; i++ {
+		rs := genRandom(r.RandN("history", i), t, i)
+		random = append(random, rs)
+		add(rs)
+	}
+	if r.Quick() {
+		for i, rs := range random {
+			rng := r.RandN("faults", i)
+			add(RunSpec{Kind: "random", Collision: rs.Collision, H: assignRandomFaults(rng, rs.H, allFaults)})
+		}
+	} else {
+		for i, rs := range random {
+			for p := range rs.H.Steps {
+				for _, f := range allFaults {
+					add(RunSpec{Kind: "random", Collision: rs.Collision, H: withFaults(rs.H, map[int]string{p: f})})
+				}
+			}
+			// fault sequences
+			for k := 0; k < 6; k++ {
+				rng := r.RandN("faultseq", i*16+k)
+				at := map[int]string{}
+				for n := 0; n < 2+rng.IntN(2); n++ {
+					at[rng.IntN(len(rs.H.Steps))] = allFaults[rng.IntN(len(allFaults))]
+				}
+				add(RunSpec{Kind: "random", Collision: rs.Collision, H: withFaults(rs.H, at)})
+			}
+		}
+	}
+	return specs
+}
+
+// simulate runs the reference model fault-free over a history.
+func simulate(rs *RunSpec) []Expect {
+	var keys []*Key
+	for _, m := range rs.H.Keys {
+		k, err := keyFromMat(m)
+		if err != nil {
+			return nil
+		}
+		keys = append(keys, k)
+	}
+	m := newModel(keys)
+	now := 0
+	var out []Expect
+	for i := range rs.H.Steps {
+		s := &rs.H.Steps[i]
+		now += s.DtHours
+		cfg := s.Config
+		if cfg == nil {
+			cfg = rs.H.Config
+		}
+		out = append(out, m.Step(s, cfg, now, Effect{}))
+	}
+	return out
+}
+
+func interesting(rs *RunSpec) []int {
+	var out []int
+	for i, ex := range simulate(rs) {
+		if len(ex.Transitions) > 0 {
+			out = append(out, i)
+		}
+	}
+	return out
+}
+
+func firstRevocation(rs *RunSpec) int {
+	for i, ex := range simulate(rs) {
+		if len(ex.NewRevoked) > 0 {
+			return i
+		}
+	}
+	return -1
 }
